@@ -59,6 +59,7 @@ fn opts(tier: Tier) -> GenOpts {
 }
 
 fn prepare(tier: Tier, seed: u64, _dir: &Path) -> Result<Value, PrepError> {
+    super::hookfree::build().map_err(PrepError::Inconclusive)?;
     fuzzdrv::prepare_lockstep("C01", "dispatch", "dispatch,editor,screen", opts(tier), SETS, tier, seed)
 }
 
@@ -66,4 +67,6 @@ fn run_shard(ctx: &ShardCtx) {
     run_lockstep_shard(ctx, "dispatch", "C01", ctx.tier.pick(1_500_000, 15_000_000), opts(ctx.tier), SETS, FLAGS);
     // what the coverage-guided campaign (prepare) kept, re-run and classified in the plain harness build
     fuzzdrv::replay_lock_corpus(ctx, "C01", "dispatch", FLAGS);
+    // the same sessions on the library as users build it (no verif-hooks), against the hooked build
+    super::hookfree::stage(ctx, ctx.tier.pick(60_000, 1_000_000), opts(ctx.tier), SETS);
 }
